@@ -11,16 +11,14 @@ use std::{mem::forget, time::Duration};
 const NOW: u64 = 1000;
 const A: TransmissionMode = TransmissionMode::Acknowledged;
 
-//# funcs=SendTransaction::cancel,_cancel,prepare_eof,get_checksum,send_pdu(Cancelled),send_eof; bound=cancel in phase SendMetadata|SendData|SendEof, 3-byte file (content symbolic); stubs=S1,S2,S3,S5
-th!(c10_q_send_cancel, 12, {
+//# funcs=SendTransaction::cancel,_cancel,prepare_eof,get_checksum,send_pdu(Cancelled),send_eof; bound=cancel before anything was sent, 3-byte file (content symbolic); stubs=S1,S2,S3,S5
+fn send_cancel(ph: u8) {
     let ch = chans();
     link_libc();
     verif::set_now(Duration::from_secs(NOW));
     let content: [u8; CAP] = kani::any();
     set_file(SRC, &content[..3]);
     let mut p = send_parts(config(A), metadata(true, 3, false, ChecksumType::Modular, vec![]), &ch);
-    let ph: u8 = kani::any();
-    kani::assume(ph < 3);
     match ph {
         0 => p.send_state = VSendState::SendMetadata,
         1 => {
@@ -56,10 +54,15 @@ th!(c10_q_send_cancel, 12, {
     let a = t.verif_timer().ack.verif_parts();
     assert!(!a.paused && a.start_time == Duration::from_secs(NOW), "ACK timer guards the handshake");
     assert!(verif::send_until_timeout(&t) <= Duration::from_secs(3), "the wait is bounded");
-    kani::cover!(ph == 1, "cancel during data");
+    kani::cover!(true, "end");
     forget(t);
     forget(ch);
-});
+}
+th!(c10_q_send_cancel_metadata_phase, 12, { send_cancel(0) });
+//# funcs=SendTransaction::cancel,_cancel,prepare_eof,get_checksum,send_eof; bound=cancel during the first pass (cursor 2 of a 3-byte file); stubs=S1,S2,S3,S5
+th!(c10_q_send_cancel_data_phase, 12, { send_cancel(1) });
+//# funcs=SendTransaction::cancel,_cancel,prepare_eof,send_eof; bound=cancel while waiting for the ACK of the EOF; stubs=S1,S2,S3,S5
+th!(c10_q_send_cancel_eof_phase, 12, { send_cancel(2) });
 
 //# funcs=SendTransaction::handle_timeout(Cancelled),abandon,send_eof; bound=phase Cancelled, ack count 0..=2, age <= 4 timeouts; stubs=S1,S2,S3
 th!(c10_q_send_cancelled_timeout, 8, {
@@ -92,22 +95,13 @@ th!(c10_q_send_cancelled_timeout, 8, {
     forget(ch);
 });
 
-/// receiver in the data phase holding k (0/1) symbolic segments of an n-byte file, staged in TMP
-fn receiver(k: usize, n: usize, ch: &Chans) -> (RecvTransaction<ModelFs>, [u64; 4]) {
+/// receiver in the data phase holding the segments of a concrete shape of a 4-byte file, staged in TMP
+fn receiver(shape: u8, ch: &Chans) -> (RecvTransaction<ModelFs>, [u64; 4]) {
     link_libc();
     verif::set_now(Duration::from_secs(NOW));
     let mut p = recv_parts(config(A), NakProcedure::Deferred(Duration::ZERO), ch);
-    p.metadata = Some(metadata(true, n as u64, false, ChecksumType::Modular, vec![]));
-    let content: [u8; CAP] = kani::any();
-    let (s, b) = any_segments(k, n as u64);
-    if k > 0 {
-        set_file(TMP, &content[..b[1] as usize]);
-        unsafe { TEMPS = 1 };
-        p.file_handle = Some(handle(TMP));
-        p.received_file_size = b[1] - b[0];
-        p.nak_received_file_size = p.received_file_size;
-    }
-    p.saved_segments = s;
+    p.metadata = Some(metadata(true, 4, false, ChecksumType::Modular, vec![]));
+    let (b, _k) = stage_shape(&mut p, shape);
     p.timer.inactivity = counter(10, 2, NOW - 1, 0, false, false);
     (RecvTransaction::verif_from_parts(p), b)
 }
@@ -118,7 +112,7 @@ fn dst_untouched() {
 //# funcs=RecvTransaction::cancel,_cancel,prepare_finished,send_pdu(Cancelled),send_finished; bound=cancel in the data phase (0-1 held segment of a 4-byte file, EOF received or not); stubs=S1,S2,S3,S5
 th!(c10_q_recv_cancel, 10, {
     let ch = chans();
-    let (t0, _b) = receiver(1, 4, &ch);
+    let (t0, _b) = receiver(2, &ch);
     let mut p = t0.verif_into_parts();
     if kani::any() {
         p.file_size = Some(4);
@@ -151,17 +145,8 @@ th!(c10_q_recv_cancel, 10, {
 });
 
 fn cancelled_receiver(ch: &Chans, complete: bool) -> RecvTransaction<ModelFs> {
-    let (t0, _b) = receiver(0, 4, ch);
+    let (t0, _b) = receiver(if complete { 1 } else { 0 }, ch);
     let mut p = t0.verif_into_parts();
-    if complete {
-        let content: [u8; CAP] = kani::any();
-        set_file(TMP, &content[..4]);
-        unsafe { TEMPS = 1 };
-        p.file_handle = Some(handle(TMP));
-        p.saved_segments.merge((0, 4));
-        p.received_file_size = 4;
-        p.nak_received_file_size = 4;
-    }
     p.recv_state = VRecvState::Cancelled;
     p.condition = Condition::CancelReceived;
     p.finished = Some((
@@ -218,7 +203,7 @@ th!(c10_q_recv_cancelled_ends, 10, {
 //# funcs=RecvTransaction::process_pdu(EoF with error condition),_cancel; bound=data phase, 1 held segment, any error condition; stubs=S1,S2,S3,S5
 th!(c10_q_recv_eof_error_cancels, 10, {
     let ch = chans();
-    let (mut t, _b) = receiver(1, 4, &ch);
+    let (mut t, _b) = receiver(2, &ch);
     let c = any_condition();
     kani::assume(c != Condition::NoError);
     let eof = EndOfFile { condition: c, checksum: kani::any(), file_size: kani::any(), fault_location: Some(VariableID::from(SRC_ID)) };
@@ -234,26 +219,26 @@ th!(c10_q_recv_eof_error_cancels, 10, {
     forget(ch);
 });
 
-//# funcs=RecvTransaction::process_pdu(EoF|FileData|Metadata) in phase Cancelled,check_finished,finalize_receive; bound=cancelled receiver holding the complete 4-byte file (only EOF was outstanding); a late EOF(NoError) with the right checksum, a data duplicate or metadata arrives; stubs=S1,S2,S3,S5
-th!(c10_q_recv_cancelled_stays_cancelled, 12, {
+//# funcs=RecvTransaction::process_pdu(EoF|FileData|Metadata) in phase Cancelled,check_finished,finalize_receive; bound=cancelled receiver holding the complete 4-byte file (only EOF was outstanding); a late EOF(NoError) with the right checksum arrives; stubs=S1,S2,S3,S5
+fn stays_cancelled(which: u8) {
     let ch = chans();
     let mut t = cancelled_receiver(&ch, true);
-    let which: u8 = kani::any();
-    kani::assume(which < 2);
     if which == 0 {
         let eof = EndOfFile { condition: Condition::NoError, checksum: ref_checksum(TMP, 4), file_size: 4, fault_location: None };
         let r = t.process_pdu(directive(A, Direction::ToReceiver, Operations::EoF(eof)));
         forget(r);
     } else {
-        let off: u64 = kani::any();
-        kani::assume(off <= 3);
+        let off: u64 = 1;
         let r = t.process_pdu(filedata(A, off, vec![file_byte(TMP, off as usize)]));
         forget(r);
     }
     assert!(t.verif_recv_state() == VRecvState::Cancelled, "a cancelled transfer stays cancelled");
     assert!(!(t.verif_delivery_code() == DeliveryCode::Complete), "and is not reported as delivered afterwards");
     dst_untouched();
-    kani::cover!(which == 0, "late EOF");
+    kani::cover!(true, "end");
     forget(t);
     forget(ch);
-});
+}
+th!(c10_q_recv_cancelled_late_eof, 12, { stays_cancelled(0) });
+//# funcs=RecvTransaction::process_pdu(FileData) in phase Cancelled,check_finished; bound=cancelled receiver holding the complete file, a duplicate of byte 1 arrives; stubs=S1,S2,S3,S5
+th!(c10_q_recv_cancelled_late_data, 12, { stays_cancelled(1) });
